@@ -373,6 +373,17 @@ def gen_case(rng, pid, tier):
             if t not in traits:
                 traits = traits + [t]
         rsrc = sized(cell, part, alloc, traits, mode)
+        if kind == 'update' and (cell, alloc) in store and rng.random() < 0.18:
+            # footprint-neutral update: same sizes and partition, spelled exactly as stored; only the
+            # traits (hence the per-trait limits that apply) change
+            st = store[(cell, alloc)]
+            part = st['partition']
+            rsrc = {k: st[k] for k in ('cpu', 'disk', 'memory')}
+            lim_traits = [l['trait'] for l in mon.part(part, cell)['limits']] if mon.wellformed(cell, part) else []
+            extra = rng.choice(lim_traits) if lim_traits and rng.random() < 0.8 else rng.choice(TRAITS)
+            traits = [t for t in st['traits'] if isinstance(t, str)]
+            if extra not in traits:
+                traits = traits + [extra]
         rsrc['partition'] = part
         rsrc['traits'] = traits
         if kind == 'create' and part == DEFAULT and rng.random() < 0.5:
